@@ -21,14 +21,14 @@ type Val struct {
 }
 
 type Env struct {
-	u       *UnitGen
-	vars    map[string]Val
-	cur     *State
-	old     *State
-	pkgPath string
-	fr      *Frame
-	loop    *loopInfo
-	depth   int
+	u        *UnitGen
+	vars     map[string]Val
+	cur      *State
+	old      *State
+	pkgPath  string
+	fr       *Frame
+	loop     *loopInfo
+	depth    int
 	atAnchor bool // evaluating an anchored assert / ghost update inside the function body
 }
 
@@ -882,6 +882,35 @@ func (e *Env) evalCall(x *ECall) Val {
 			cs = append(cs, Eq(u.load(e.cur, a), reg.Zero(f.Type())))
 		}
 		return spec(And(cs...))
+	case "closureof", "captured":
+		// closureof(f, "Outer$1"): the func value f was made from that function's code;
+		// captured(f, "Outer$1", "name"): the value of its captured variable
+		v := e.eval(x.Args[0])
+		lit, ok := x.Args[1].(*ELit)
+		if !ok || lit.Kind != "string" {
+			e.fail("%s wants a quoted function name", id.Name)
+		}
+		fname := strings.Trim(lit.Val, `"`)
+		reg.DeclFun("fncode", []Sort{SInt}, SInt)
+		if id.Name == "closureof" {
+			return spec(Eq(fnCode(v.T), IntN(fnCodeID(e.pkgPath, fname))))
+		}
+		fn := u.g.closureFn(e.pkgPath, fname)
+		if fn == nil {
+			e.fail("captured: no closure of %s.%s is made in the program", e.pkgPath, fname)
+		}
+		vl, ok := x.Args[2].(*ELit)
+		if !ok {
+			e.fail("captured wants a quoted variable name")
+		}
+		vn := strings.Trim(vl.Val, `"`)
+		for i, fv := range fn.FreeVars {
+			if fv.Name() == vn {
+				t, ty := u.fnEnv(fn, i, v.T)
+				return Val{T: t, Ty: ty}
+			}
+		}
+		e.fail("captured: %s has no captured variable %s", fname, vn)
 	case "fresh":
 		v := e.eval(x.Args[0])
 		return spec(And(App(SBool, ">=", v.T, u.top(e.old)), App(SBool, "<", v.T, u.top(e.cur))))
